@@ -97,6 +97,11 @@ def gen(tier, seed, shard, nshards):
                     iv["noise"][j] = par
                 elif r < 0.45:
                     iv["shift"][j] = par
+                if r < 0.45 and rng.random() < 0.3:
+                    # a second kind of intervention on the same target (do overrides noise overrides shift)
+                    other = ["do", "noise", "shift"][int(rng.integers(3))]
+                    if j not in iv[other]:
+                        iv[other][j] = (float(np.round(rng.uniform(-3, 3), 2)) * sc, float(np.round(rng.uniform(0.1, 3), 2)) * sc * sc)
         yield "lganm", {"W": W, "means": means, "variances": variances, "iv": iv}
 
 
